@@ -26,9 +26,10 @@ STEP_LIMIT = 200000
 MAX_FAILS_PER_KIND = 5       # a block case reports at most this many failing inputs per kind of failure
 HXDIR = os.path.dirname(os.path.dirname(os.path.abspath(__file__)))      # .../hxverif
 
-# delivery-channel differential (core.Env): of every 4 evaluations that bind variables, one is repeated with the
-# values handed in by the cell/range listeners and one with the values returned by custom functions; outcomes must agree
-CHANNELS = 4
+# delivery-channel and host-type differential (core.Env): of every 6 evaluations that bind variables, one is repeated with the
+# values handed in by the cell/range listeners, one with the values returned by custom functions and one with every value an
+# instance of a trivial subclass of its type (numpy.float64, IntEnum, rich-text str ... are such); outcomes must agree
+CHANNELS = 6
 
 BOUNDS = {
     'quick': 'ROUND/ROUNDUP/ROUNDDOWN: {k/4:|k|<=40} + float-typed integers + 34 decimal fractions + integers '
